@@ -38,7 +38,9 @@ Resid(c, st, i) == LET x == c.xs[i] IN
                    IF c.kind = "inv" THEN Sub(U(st, x), MulI(st.kap, x)) ELSE Sub(U(st, x), R(c.p * x + c.q))
 \* the points a condition uses at state st: all of them, or (data) the mini-batch number k mod (number of batches)
 NB(c) == (Len(c.xs) + c.bs - 1) \div c.bs
-Lo(c, st) == IF c.kind = "data" THEN (st.k % NB(c)) * c.bs + 1 ELSE 1
+\* (a data condition walks its loader on its own: the batch index counts ITS evaluations -- st.it, the training steps since the
+\* conditions were built -- and is not reset when the same Solver is fitted again by a fresh Trainer)
+Lo(c, st) == IF c.kind = "data" THEN (st.it % NB(c)) * c.bs + 1 ELSE 1
 Hi(c, st) == IF c.kind = "data" THEN (IF Lo(c, st) + c.bs - 1 > Len(c.xs) THEN Len(c.xs) ELSE Lo(c, st) + c.bs - 1) ELSE Len(c.xs)
 N(c) == Len(c.xs)
 NAt(c, st) == Hi(c, st) - Lo(c, st) + 1
@@ -78,8 +80,8 @@ Step2(cfg, st) ==
         lr2 == IF cfg.ssize > 0 /\ sc2 # st.sched /\ sc2 % cfg.ssize = 0 THEN Mul(st.lr, <<cfg.gn, cfg.gd>>) ELSE st.lr
         fits1 == Fits(s1.a) /\ Fits(s1.b) /\ Fits(s1.kap) /\ \A i \in DOMAIN s1.lam : Fits(s1.lam[i])
     \* (an intermediate point outside the magnitude budget: the step is not computed; the marker state fails StateFits)
-    IN IF ~fits1 THEN [st EXCEPT !.a = <<16384, 1>>, !.k = k2]
-       ELSE [Half(cfg, s1, h, IF st.k = 0 THEN 1 ELSE 2) EXCEPT !.lr = lr2, !.k = k2, !.sched = sc2]
+    IN IF ~fits1 THEN [st EXCEPT !.a = <<16384, 1>>, !.k = k2, !.it = st.it + 1]
+       ELSE [Half(cfg, s1, h, IF st.k = 0 THEN 1 ELSE 2) EXCEPT !.lr = lr2, !.k = k2, !.sched = sc2, !.it = st.it + 1]
 StepSGD(cfg, st) ==
     LET cs == cfg.train
         mu == <<cfg.mun, cfg.mud>>
@@ -94,11 +96,11 @@ StepSGD(cfg, st) ==
     IN [a |-> Sub(st.a, Mul(st.lr, va)), b |-> Sub(st.b, Mul(st.lr, vb)),
         kap |-> IF HasKind(cs, "inv") \/ HasKind(cs, "pen") THEN Sub(st.kap, Mul(st.lr, vk)) ELSE st.kap,
         lam |-> [i \in DOMAIN st.lam |-> Sub(st.lam[i], Mul(st.lr, vl[i]))],
-        va |-> va, vb |-> vb, vk |-> vk, vl |-> vl, lr |-> lr2, k |-> k2, sched |-> sc2]
+        va |-> va, vb |-> vb, vk |-> vk, vl |-> vl, lr |-> lr2, k |-> k2, sched |-> sc2, it |-> st.it + 1]
 Step(cfg, st) == IF IsTwo(cfg) THEN Step2(cfg, st) ELSE StepSGD(cfg, st)
 Init0(cfg) == [a |-> R(cfg.a0), b |-> R(cfg.b0), kap |-> R(cfg.k0), lam |-> [i \in 1..cfg.nl |-> R(1)],
                va |-> R(0), vb |-> R(0), vk |-> R(0), vl |-> [i \in 1..cfg.nl |-> R(0)],
-               lr |-> <<cfg.lrn, cfg.lrd>>, k |-> 0, sched |-> 0]
+               lr |-> <<cfg.lrn, cfg.lrd>>, k |-> 0, sched |-> 0, it |-> 0]
 RECURSIVE After(_, _)
 After(cfg, n) == IF n = 0 THEN Init0(cfg) ELSE Step(cfg, After(cfg, n - 1))
 \* a second fit of the SAME Solver with a fresh Trainer: the learnables persist; optimizer, scheduler and the iteration index start again
